@@ -226,7 +226,9 @@ fn compile_filters(sync_spec: &SyncSpec) -> Result<Filters, String> {
         let pattern = f.split_at(1).1.to_string();
         // Wrap in ^...$ to make it match the whole string, otherwise it's too easy
         // to make a mistake with filters that unintentionally match something else
-        let pattern = format!("^{pattern}$");
+        // (the non-capturing group makes sure the anchors apply to the whole pattern, not just to the
+        // first and last alternatives of a pattern like "build|dist")
+        let pattern = format!("^(?:{pattern})$");
         patterns.push(pattern);
     }
     let regex_set = match RegexSet::new(patterns) {
